@@ -16,16 +16,18 @@ func init() {
 }
 
 type c12Scen struct {
-	Router  string      `json:"router"`
-	Entry   string      `json:"entry"`
-	Trace   bool        `json:"trace"`
-	Preempt int         `json:"preempt_permille"`
-	Svcs    []SvcSpec   `json:"services"` // Routes = initial routes followed by pool routes
-	InitR   map[int]int `json:"initial_route_count"`
-	Members []int       `json:"initial_members"`
-	Admins  [][]AdminOp `json:"admin_tasks"`
-	Clients [][]Probe   `json:"client_tasks"`
-	entry   int
+	Router     string      `json:"router"`
+	Entry      string      `json:"entry"`
+	Trace      bool        `json:"trace"`
+	Reentrant  bool        `json:"reentrant_filter"`
+	Rendezvous bool        `json:"first_request_of_client0_waits_for_first_of_client1"`
+	Preempt    int         `json:"preempt_permille"`
+	Svcs       []SvcSpec   `json:"services"` // Routes = initial routes followed by pool routes
+	InitR      map[int]int `json:"initial_route_count"`
+	Members    []int       `json:"initial_members"`
+	Admins     [][]AdminOp `json:"admin_tasks"`
+	Clients    [][]Probe   `json:"client_tasks"`
+	entry      int
 }
 
 type histOp struct {
@@ -49,6 +51,8 @@ func genC12(x *Ctx) *c12Scen {
 	sc.Entry = entryName(sc.entry)
 	sc.Trace = tp.Bool()
 	sc.Preempt = []int{300, 100, 500, 50}[tp.G(4)]
+	sc.Reentrant = tp.Chance(350)
+	sc.Rendezvous = tp.Chance(200)
 	nSvc := tp.Range(2, 4)
 	rootPerm := tp.Perm(len(c12Roots))
 	rid := 0
@@ -126,6 +130,9 @@ func genC12(x *Ctx) *c12Scen {
 		sc.Admins = append(sc.Admins, ops)
 	}
 	nClients := tp.Range(1, 3)
+	if sc.Rendezvous && nClients < 2 {
+		nClients = 2
+	}
 	maxReq := 3
 	if x.Thorough() {
 		maxReq = 5
@@ -154,8 +161,20 @@ func runC12(x *Ctx) {
 	s := x.Sim
 	s.Preempt = sc.Preempt
 
-	w := &World{Svcs: sc.Svcs, Router: sc.Router}
+	w := &World{Svcs: sc.Svcs, Router: sc.Router, Reentrant: sc.Reentrant}
 	w.index()
+	var done sim.Flags
+	if sc.Rendezvous {
+		// a long poll: the first request of client0, if it reaches a route function, waits there until the
+		// first request of client1 has been answered
+		w.OnRoute = func(int) {
+			t := sim.Cur()
+			if t.Name == "client0" && t.Req == 1 {
+				t.Count("reach:request-waited-for-another-request")
+				t.WaitUntil(sim.SiteRendezvous, func() bool { return done.Get(1) })
+			}
+		}
+	}
 	init := RegState{Members: append([]int{}, sc.Members...), Routes: map[int][]int{}}
 	for _, sp := range sc.Svcs {
 		init.Routes[sp.ID] = []int{}
@@ -189,7 +208,7 @@ func runC12(x *Ctx) {
 	}
 	reqID := 0
 	for c, ps := range sc.Clients {
-		ps := ps
+		c, ps := c, ps
 		slot := ti
 		ti++
 		base := reqID
@@ -205,6 +224,12 @@ func runC12(x *Ctx) {
 				hists[slot][k].Out = o.Key()
 				hists[slot][k].Ret = t.Stamp()
 				hists[slot][k].Finished = true
+				if c == 1 && i == 0 {
+					done.Set(1)
+				}
+			}
+			if c == 1 && len(ps) == 0 {
+				done.Set(1)
 			}
 		})
 	}
